@@ -172,10 +172,8 @@ impl<'a, F: Field> AddAssign<&'a Self> for SparsePolynomial<F> {
 impl<'a, F: Field> AddAssign<(F, &'a Self)> for SparsePolynomial<F> {
     // TODO: Reduce number of clones
     fn add_assign(&mut self, (f, other): (F, &'a Self)) {
-        self.coeffs = (self.clone() + other.clone()).coeffs;
-        for i in 0..self.coeffs.len() {
-            self.coeffs[i].1 *= f;
-        }
+        let scaled = other * f;
+        self.coeffs = (self.clone() + scaled).coeffs;
     }
 }
 
